@@ -50,12 +50,13 @@ func (info *decodeInfo) decodeCharString(code []byte, name string) (*Glyph, erro
 	var LsbX funit.Int16 // TODO(voss): use float64
 	var LsbY funit.Int16
 	isClosed := true
+	inFlex := false
 	rClosePath := func() {
 		res.Cmds = append(res.Cmds, GlyphOp{Op: OpClosePath})
 		isClosed = true
 	}
 	rMoveTo := func(dx, dy float64) {
-		if !isClosed {
+		if !isClosed && !inFlex {
 			rClosePath()
 		}
 		posX += dx
@@ -388,6 +389,7 @@ glyphLoop:
 
 				switch idx {
 				case 0: // flex end (3 args, 2 returns)
+					inFlex = false
 					if len(flexData) == 14 {
 						res.Cmds = append(res.Cmds, GlyphOp{
 							Op: OpCurveTo,
@@ -410,6 +412,7 @@ glyphLoop:
 					}
 					postscriptStack = postscriptStack[:len(postscriptStack)-1]
 				case 1: // flex start (0 args)
+					inFlex = true
 					flexData = flexData[:0]
 				case 2: // flex coordinate pair (0 args)
 					flexData = append(flexData, posX, posY)
